@@ -96,11 +96,114 @@ type Spec struct {
 	RangeCond map[string]string // source of a ranged-over expression -> Lean Bool input "some iteration takes the loop's single `if ... { return }`"
 	Status    map[string]int    // "status"/"statusstate" return modes: Go expression source (http.StatusX) -> number
 	StatusIdx int               // index of the status among the results ("status", "statusstate", "statuserr")
+	Lazy      bool              // drop `x := e` when e is not translatable; a later translated use of x then fails the unit
+	Bind      map[string]string // call-name prefix -> the name the Spec's keys use for the call's first result (survives a rename of the local)
 }
 
 type tr struct {
 	sp         Spec
-	pendingErr string // Lean Bool for the `err` assigned by the latest ErrCalls call
+	pendingErr string              // Lean Bool for the `err` assigned by the latest ErrCalls call
+	aliases    map[string]ast.Expr // Go local -> the expression it stands for (hoisted pure reads, renamed call results)
+	opaque     map[string]bool     // Go locals whose defining expression could not be translated: fine as long as nothing translated uses them
+}
+
+// pureAccess: a side-effect-free read path (x, x.f, x[const], x.GetF(), *x, &x, len(x)) whose value cannot change between a
+// hoist point and its uses in the functions translated here (no assignment to the path in between is checked by isAssignedLater).
+func pureAccess(e ast.Expr) bool {
+	switch x := e.(type) {
+	case *ast.Ident:
+		return true
+	case *ast.SelectorExpr:
+		return pureAccess(x.X)
+	case *ast.ParenExpr:
+		return pureAccess(x.X)
+	case *ast.StarExpr:
+		return pureAccess(x.X)
+	case *ast.UnaryExpr:
+		return x.Op == token.AND && pureAccess(x.X)
+	case *ast.IndexExpr:
+		_, lit := x.Index.(*ast.BasicLit)
+		return lit && pureAccess(x.X)
+	case *ast.CallExpr:
+		if len(x.Args) == 0 {
+			if sel, ok := x.Fun.(*ast.SelectorExpr); ok && strings.HasPrefix(sel.Sel.Name, "Get") {
+				return pureAccess(sel.X) // protobuf getters
+			}
+		}
+		if id, ok := x.Fun.(*ast.Ident); ok && id.Name == "len" && len(x.Args) == 1 {
+			return pureAccess(x.Args[0])
+		}
+	}
+	return false
+}
+
+// subst replaces aliased identifiers by what they stand for (fresh nodes; the original tree is not modified).
+func (t *tr) subst(e ast.Expr) ast.Expr {
+	if len(t.aliases) == 0 || e == nil {
+		return e
+	}
+	switch x := e.(type) {
+	case *ast.Ident:
+		if a, ok := t.aliases[x.Name]; ok {
+			return a
+		}
+		return x
+	case *ast.SelectorExpr:
+		return &ast.SelectorExpr{X: t.subst(x.X), Sel: x.Sel}
+	case *ast.ParenExpr:
+		return &ast.ParenExpr{X: t.subst(x.X)}
+	case *ast.StarExpr:
+		return &ast.StarExpr{X: t.subst(x.X)}
+	case *ast.UnaryExpr:
+		return &ast.UnaryExpr{Op: x.Op, X: t.subst(x.X)}
+	case *ast.BinaryExpr:
+		return &ast.BinaryExpr{X: t.subst(x.X), Op: x.Op, Y: t.subst(x.Y)}
+	case *ast.IndexExpr:
+		return &ast.IndexExpr{X: t.subst(x.X), Index: t.subst(x.Index)}
+	case *ast.CallExpr:
+		args := make([]ast.Expr, len(x.Args))
+		for i, a := range x.Args {
+			args[i] = t.subst(a)
+		}
+		fun := x.Fun
+		if sel, ok := fun.(*ast.SelectorExpr); ok {
+			fun = &ast.SelectorExpr{X: t.subst(sel.X), Sel: sel.Sel}
+		}
+		return &ast.CallExpr{Fun: fun, Args: args, Ellipsis: x.Ellipsis}
+	}
+	return e
+}
+
+// norm removes the spaces go/printer puts (or, for synthesized nodes, fails to put) around operators and selectors, so that a
+// Spec key matches the source it was written from whatever the printer's spacing decisions are.
+func norm(s string) string { return strings.ReplaceAll(strings.ReplaceAll(s, " ", ""), "\t", "") }
+
+// lookup finds key in m modulo spacing.
+func lookup(m map[string]string, key string) (string, bool) {
+	if v, ok := m[key]; ok {
+		return v, true
+	}
+	nk := norm(key)
+	for k, v := range m {
+		if norm(k) == nk {
+			return v, true
+		}
+	}
+	return "", false
+}
+
+// tryExpr translates e, reporting failure instead of aborting the unit.
+func (t *tr) tryExpr(e ast.Expr) (out string, ok bool) {
+	defer func() {
+		if r := recover(); r != nil {
+			if _, isBail := r.(bail); isBail {
+				out, ok = "", false
+				return
+			}
+			panic(r)
+		}
+	}()
+	return t.expr(e), true
 }
 
 func prefixLookup(m map[string]string, name string) (string, bool) {
@@ -121,7 +224,7 @@ func callName(e ast.Expr) string {
 	if !ok {
 		return ""
 	}
-	return src(c.Fun)
+	return norm(src(c.Fun))
 }
 
 func (t *tr) ops() string {
@@ -146,9 +249,13 @@ func (t *tr) lvalue(e ast.Expr) string {
 }
 
 func (t *tr) expr(e ast.Expr) string {
+	e = t.subst(e)
 	s := src(e)
-	if r, ok := t.sp.Repl[s]; ok {
+	if r, ok := lookup(t.sp.Repl, s); ok {
 		return r
+	}
+	if id, ok := e.(*ast.Ident); ok && t.opaque[id.Name] {
+		failf(e, "use of %s, whose defining expression is outside the translatable subset", id.Name)
 	}
 	if v, ok := t.sp.Vars[s]; ok {
 		return v
@@ -163,6 +270,8 @@ func (t *tr) expr(e ast.Expr) string {
 			return "true"
 		case "false":
 			return "false"
+		case "nil":
+			failf(e, "nil outside a replaced comparison")
 		}
 		return leanIdent(x.Name)
 	case *ast.BasicLit:
@@ -495,6 +604,43 @@ func elseList(e ast.Stmt) []ast.Stmt {
 	return nil
 }
 
+func (t *tr) inIgnoreLHS(name string) bool {
+	for _, ig := range t.sp.IgnoreLHS {
+		if ig == name {
+			return true
+		}
+	}
+	return false
+}
+
+// initKey renders an if-init statement with aliases substituted on its right-hand sides.
+func (t *tr) initKey(st ast.Stmt) string {
+	as, ok := st.(*ast.AssignStmt)
+	if !ok || len(t.aliases) == 0 {
+		return src(st)
+	}
+	cp := *as
+	cp.Rhs = make([]ast.Expr, len(as.Rhs))
+	for i, r := range as.Rhs {
+		cp.Rhs[i] = t.subst(r)
+	}
+	return src(&cp)
+}
+
+// errCallName: the Lean Bool of an ErrCalls call (without its effect), or "".
+func (t *tr) errCallName(e ast.Expr) string {
+	name, ok := prefixLookup(t.sp.ErrCalls, callName(e))
+	if !ok {
+		return ""
+	}
+	if i := strings.Index(name, "|"); i >= 0 {
+		if strings.Contains(name[i+1:], ":=") {
+			return "" // calls with an effect are not folded into a condition
+		}
+	}
+	return name
+}
+
 // block translates statements; tail is the Lean term for falling off the end.
 func (t *tr) block(b []ast.Stmt, tail string, ind string) string {
 	if len(b) == 0 {
@@ -503,6 +649,7 @@ func (t *tr) block(b []ast.Stmt, tail string, ind string) string {
 	s, rest := b[0], b[1:]
 	switch x := s.(type) {
 	case *ast.ExprStmt:
+		x = &ast.ExprStmt{X: t.subst(x.X)}
 		if eff, ok := prefixLookup(t.sp.Effects, callName(x.X)); ok {
 			call := x.X.(*ast.CallExpr)
 			for i, a := range call.Args {
@@ -525,7 +672,8 @@ func (t *tr) block(b []ast.Stmt, tail string, ind string) string {
 				return t.block(rest, tail, ind)
 			}
 		}
-		c, ok := t.sp.RangeCond[src(x.X)]
+		rx := src(t.subst(x.X))
+		c, ok := lookup(t.sp.RangeCond, rx)
 		if !ok {
 			failf(s, "unsupported range loop over %s", src(x.X))
 		}
@@ -544,7 +692,7 @@ func (t *tr) block(b []ast.Stmt, tail string, ind string) string {
 		if is.Init != nil {
 			key = src(is.Init) + " ; " + key
 		}
-		if want, ok := t.sp.RangeCond["cond:"+src(x.X)]; !ok || want != key {
+		if want, ok := lookup(t.sp.RangeCond, "cond:"+rx); !ok || norm(want) != norm(key) {
 			failf(s, "range loop over %s: loop test is `%s`, expected `%s`", src(x.X), key, want)
 		}
 		return "if " + c + " then\n" + ind + "  " + t.ret(r) + "\n" + ind + "else\n" + ind + t.block(rest, tail, ind)
@@ -592,9 +740,17 @@ func (t *tr) block(b []ast.Stmt, tail string, ind string) string {
 		return "let " + v + " := (" + t.ops() + op + t.expr(x.X) + " (1 : Int))\n" + ind + t.block(rest, tail, ind)
 	case *ast.AssignStmt:
 		if len(x.Rhs) == 1 {
-			if name, ok := prefixLookup(t.sp.ErrCalls, callName(x.Rhs[0])); ok {
+			if name, ok := prefixLookup(t.sp.ErrCalls, callName(t.subst(x.Rhs[0]))); ok {
 				if src(x.Lhs[len(x.Lhs)-1]) != "err" {
 					failf(s, "ErrCalls call %s does not assign err last", src(s))
+				}
+				if canon, ok := prefixLookup(t.sp.Bind, callName(x.Rhs[0])); ok && len(x.Lhs) >= 2 {
+					if id, isId := x.Lhs[0].(*ast.Ident); isId && id.Name != canon && id.Name != "_" {
+						if t.aliases == nil {
+							t.aliases = map[string]ast.Expr{}
+						}
+						t.aliases[id.Name] = ast.NewIdent(canon)
+					}
 				}
 				pre := ""
 				if i := strings.Index(name, "|"); i >= 0 {
@@ -614,6 +770,32 @@ func (t *tr) block(b []ast.Stmt, tail string, ind string) string {
 			}
 			return t.block(rest, tail, ind)
 		}
+		if x.Tok == token.DEFINE && len(x.Lhs) == len(x.Rhs) {
+			// hoisted reads (`leaf, proof := rsp.Leaf, rsp.Proof`): a local defined by a pure access path that is not itself
+			// translatable stands for that path
+			allAliased := true
+			for i := range x.Lhs {
+				id, isId := x.Lhs[i].(*ast.Ident)
+				if !isId || !pureAccess(x.Rhs[i]) || t.inIgnoreLHS(id.Name) {
+					allAliased = false
+					break
+				}
+				if _, ok := t.tryExpr(x.Rhs[i]); ok {
+					allAliased = false
+					break
+				}
+				_ = id
+			}
+			if allAliased {
+				if t.aliases == nil {
+					t.aliases = map[string]ast.Expr{}
+				}
+				for i := range x.Lhs {
+					t.aliases[x.Lhs[i].(*ast.Ident).Name] = t.subst(x.Rhs[i])
+				}
+				return t.block(rest, tail, ind)
+			}
+		}
 		if len(x.Lhs) >= 1 {
 			all := true
 			for _, l := range x.Lhs {
@@ -629,8 +811,43 @@ func (t *tr) block(b []ast.Stmt, tail string, ind string) string {
 				return t.block(rest, tail, ind)
 			}
 		}
+		if x.Tok == token.DEFINE || x.Tok == token.ASSIGN {
+			// a local whose defining expression is outside the translatable subset (labels, request structs, helper results):
+			// dropped, and any later use of it in something that IS translated fails the unit
+			idents := true
+			for _, l := range x.Lhs {
+				if _, ok := l.(*ast.Ident); !ok {
+					idents = false
+				}
+			}
+			translatable := len(x.Lhs) == len(x.Rhs)
+			if translatable {
+				for _, r := range x.Rhs {
+					if _, ok := t.tryExpr(r); !ok {
+						translatable = false
+					}
+				}
+			}
+			if idents && !translatable && t.sp.Lazy {
+				if t.opaque == nil {
+					t.opaque = map[string]bool{}
+				}
+				for _, l := range x.Lhs {
+					if n := l.(*ast.Ident).Name; n != "_" && n != "err" {
+						t.opaque[n] = true
+					}
+				}
+				return t.block(rest, tail, ind)
+			}
+		}
 		if len(x.Lhs) != len(x.Rhs) {
 			failf(s, "unsupported multi-value assignment %s", src(s))
+		}
+		if len(x.Lhs) == 1 && (x.Tok == token.ADD_ASSIGN || x.Tok == token.SUB_ASSIGN || x.Tok == token.MUL_ASSIGN) {
+			// x op= e  is  x = x op e
+			op := map[token.Token]token.Token{token.ADD_ASSIGN: token.ADD, token.SUB_ASSIGN: token.SUB, token.MUL_ASSIGN: token.MUL}[x.Tok]
+			rhs := &ast.BinaryExpr{X: x.Lhs[0], Op: op, Y: x.Rhs[0]}
+			return "let " + t.lvalue(x.Lhs[0]) + " := " + t.expr(rhs) + "\n" + ind + t.block(rest, tail, ind)
 		}
 		if x.Tok != token.DEFINE && x.Tok != token.ASSIGN {
 			failf(s, "unsupported assignment operator in %s", src(s))
@@ -660,8 +877,12 @@ func (t *tr) block(b []ast.Stmt, tail string, ind string) string {
 		}
 		var c string
 		if x.Init != nil {
-			if r, ok := t.sp.InitCond[src(x.Init)+" ; "+src(x.Cond)]; ok {
+			if r, ok := lookup(t.sp.InitCond, src(x.Init)+" ; "+src(t.subst(x.Cond))); ok {
 				c = r
+			} else if r, ok := lookup(t.sp.InitCond, t.initKey(x.Init)+" ; "+src(t.subst(x.Cond))); ok {
+				c = r
+			} else if as0, ok0 := x.Init.(*ast.AssignStmt); ok0 && len(as0.Rhs) == 1 && src(x.Cond) == "err != nil" && src(as0.Lhs[len(as0.Lhs)-1]) == "err" && t.errCallName(as0.Rhs[0]) != "" {
+				c = t.errCallName(as0.Rhs[0])
 			} else if as, ok := x.Init.(*ast.AssignStmt); ok && as.Tok == token.DEFINE && len(as.Lhs) == 1 && len(as.Rhs) == 1 {
 				// `if v := e; cond`: bind v, then the ordinary translation
 				pre := "let " + t.lvalue(as.Lhs[0]) + " := " + t.expr(as.Rhs[0]) + "\n" + ind
@@ -727,6 +948,11 @@ func (t *tr) block(b []ast.Stmt, tail string, ind string) string {
 		for _, cc := range clauses {
 			var cs []string
 			for _, e := range cc.List {
+				if src(e) == "err != nil" && t.pendingErr != "" {
+					cs = append(cs, t.pendingErr)
+					t.pendingErr = ""
+					continue
+				}
 				cs = append(cs, t.expr(e))
 			}
 			c := cs[0]
